@@ -267,6 +267,44 @@ def rule_e(res: Results, idx: Index) -> None:
                             res.ok("R-C03e", site, key, f"covers section(s) {[x.source for x in secs[min(ks):max(ke)] if x.length]}", fi.qualname)
                         else:
                             res.violation("R-C03e", site, key, f"`{seq}[{src(sl.slice, 40)}]` over `{loop_txt}` covers [{show(lo)} : {show(hi)}], which does not end at a section boundary of `{lst}` ({bounds})", fi.qualname)
+    # Loop contract: the node's loop-carried inputs (after trip count and condition) and its declared outputs are
+    # the same sequence of groups: where both lists are assembled locally, their sections must agree pairwise
+    n_pairs = 0
+    for m in idx.product_modules():
+        if "/plugins/" not in m.rel:
+            continue
+        for fi in m.funcs.values():
+            for c in walk_no_nested(fi.node):
+                if not (isinstance(c, ast.Call) and (call_name(c) or "").split(".")[-1] in ("builder_loop", "Loop")):
+                    continue
+                star = next((a.value.id for a in c.args if isinstance(a, ast.Starred) and isinstance(a.value, ast.Name)), None)
+                outs = next((k.value.id for k in c.keywords if k.arg in ("output_names", "_outputs") and isinstance(k.value, ast.Name)), None)
+                if not star or not outs:
+                    continue
+                du = defuse(fi.node)
+                a, b = list_layout(fi.node, du, star), list_layout(fi.node, du, outs)
+                if not a or not b or len(a) < 3:
+                    continue
+                a = a[2:]  # trip count, condition
+                n_pairs += 1
+                key = f"{m.rel}::{fi.qualname}::carried-layout::{star}~{outs}"
+                site = f"{m.rel}:{c.lineno}"
+                common = set()
+                for x_ in a:
+                    common |= atoms(x_.length)
+                bad = None
+                for i, (x_, y_) in enumerate(zip(a, b)):
+                    if x_.length == y_.length:
+                        continue
+                    if atoms(y_.length) <= common and atoms(x_.length) <= {k for z in b for k in atoms(z.length)}:
+                        bad = (i, x_, y_)
+                        break
+                if bad:
+                    i, x_, y_ = bad
+                    res.violation("R-C03e", site, key, f"group {i} of the Loop's carried inputs `{star}` has {show(x_.length)} values ({x_.source}) but group {i} of its declared outputs `{outs}` has {show(y_.length)} ({y_.source}): the loop-carried positions no longer line up", fi.qualname)
+                else:
+                    res.ok("R-C03e", site, key, f"carried inputs and declared outputs have the same groups in the same order ({', '.join(x_.source for x_ in a)})", fi.qualname)
+    res.analysed["loop_carried_layout_pairs"] = n_pairs
     res.analysed["sliced_output_layout_sites"] = n_sites
     res.analysed["output_slices"] = n_slices
     # positive control
